@@ -35,9 +35,10 @@ func ConvertQueueErr(err error) error {
 
 // NormalizeSlotIndex slot index
 func NormalizeSlotIndex(index int, slotSize int) int {
+	// take the remainder first: negating math.MinInt overflows and stays negative
+	index %= slotSize
 	if index < 0 {
 		index = -index
 	}
-	index %= slotSize
 	return index
 }
